@@ -91,6 +91,8 @@ def check(k, seed):
         combo.append(rng.choice(['extra_columns', 'wrong_dtypes']))
     fails = []
     cur = df
+    # a dropped column is applied last: the other defects are built from the four required columns
+    combo = [d for d in combo if d != 'drop_column'] + [d for d in combo if d == 'drop_column']
     for d in combo:
         if isinstance(cur, pd.DataFrame) and len(cur):
             nxt = mutate(cur, d, rng)
